@@ -362,7 +362,7 @@ pub fn run(ctx: &mut Ctx) {
             }
         }
     }
-    set_stall_limit(600);
+    set_stall_limit(90);
     live_icmp(ctx);
     wire_ttl(ctx);
     malformed_icmp_on_the_wire(ctx);
@@ -490,7 +490,8 @@ fn live_icmp(ctx: &mut Ctx) {
             ops = directed[h].clone();
             ctx.stat("live_directed_staggered_deadlines");
         }
-        // ---- execute ----
+        // ---- execute ---- (named for the progress watchdog: a wedged listener stops the history that wedged it)
+        begin_case(&format!("live ICMP waiter-table history #{} on raw sockets (request timeout {} ms, receive queue of {}): {:?}", h, T_MS, CAP, ops));
         let settings = Settings::builder()
             .listen_address(("127.0.0.1", 1))
             .unwrap()
